@@ -162,6 +162,14 @@ RetargetsACall(X) ==
 C03_Fallthrough(K) == ByType(K.obs, {"Fallthrough"}) = K.exp.ft
 C03_BranchCall(K) == ByType(K.obs, {"Branch", "Call"}) = K.exp.bc
 C03_Returns(K) == ByType(K.obs, {"Return"}) = K.exp.ret
+\* a fallthrough edge leads to the code that follows its source (or to a proxy): judged also
+\* where the edited listing is not well formed (an instruction left falling off its section
+\* or into data), where the exact edge set is not
+ObsFarFallthrough(st) ==
+  {st.edges[i] : i \in {k \in DOMAIN st.edges :
+      /\ st.edges[k].ty = "Fallthrough" /\ st.edges[k].s[1] = "blk" /\ st.edges[k].t[1] = "blk"
+      /\ ~(st.edges[k].t[2] = st.edges[k].s[2] /\ st.edges[k].t[3] = st.edges[k].s[3] + st.edges[k].s[4])}}
+C03_FallthroughAdjacent(X) == ObsFarFallthrough(X.t.post) = {}
 C03_NoBuriedTerminator(X) == Buried(X.t.post) = {}
 C03_EndpointsAlive(X) == ObsStale(X.t.post) = {} /\ ObsOddSources(X.t.post) = {}
 =============================================================================
